@@ -43,7 +43,10 @@ type Gen struct {
 
 var denomPool = []string{"uusdc", "UUSDC", "uUsDC", "uuſdc", "other", "", "ab", "1usdc", "uusdc/x", strings.Repeat("a", 128), strings.Repeat("a", 129)}
 
-const mintDenom = "uusdc"
+// mintDenom is the fiat-token-factory minting denom of the chain being generated; most chains use the
+// lower-case "uusdc", some a mixed-case one (then only that exact spelling can be burnt, and the burn
+// token in bodies and events is still the keccak of the LOWER-CASED denom).
+var mintDenom = "uusdc"
 
 func hx(b []byte) string { return hex.EncodeToString(b) }
 func hs(s string) string { return hex.EncodeToString([]byte(s)) }
